@@ -626,6 +626,8 @@ DEF_FAMILIES = ['valid', 'valid', 'valid', 'adv:self-same', 'adv:self-same', 'ad
                 'adv:rhs-tyvar', 'adv:rhs-tyvar', 'adv:rhs-extra-var', 'adv:rhs-extra-svar', 'adv:lhs-repeat',
                 'adv:lhs-const', 'adv:lhs-compound', 'adv:lhs-svar', 'adv:name-exists', 'adv:overload-declared',
                 'overload-undeclared', 'adv:overload-nomatch', 'adv:overload-tyvar', 'adv:overload-self',
+                'adv:overload-self-instance', 'adv:overload-self-instance', 'adv:overload-self-general',
+                'adv:overload-self-unifiable',
                 'adv:not-equation', 'adv:wrong-head', 'adv:ill-typed']
 
 
@@ -645,7 +647,8 @@ def def_strategy(env, families):
         sig = env.sig
 
         # ---- base definition  c p1 .. pn = rhs ----------------------------------------------------------
-        if fam in ('overload-declared', 'overload-undeclared', 'overload-tyvar', 'overload-self'):
+        if fam in ('overload-declared', 'overload-undeclared', 'overload-tyvar', 'overload-self', 'overload-self-instance',
+                   'overload-self-general', 'overload-self-unifiable'):
             name = draw(st.sampled_from(env.overloaded))
             general = ref.to_jtype(sig.consts[name])
             if fam == 'overload-declared':
@@ -655,6 +658,11 @@ def def_strategy(env, families):
             else:
                 if fam == 'overload-tyvar':
                     target = B
+                elif fam == 'overload-self-unifiable':
+                    target = fun(A, BOOL)
+                elif fam in ('overload-self-instance', 'overload-self-general'):
+                    # a declared type that is still polymorphic, at an instance no library item declares
+                    target = draw(st.sampled_from([fun(A, BOOL), fun(BOOL, A)] + ([["tc", "list", A]] if env.has_list else [])))
                 else:
                     target = draw(st.sampled_from([BOOL, fun(BOOL, BOOL)] + ([["tc", "list", A]] if env.has_list else [])))
                 declT = L.jsubst_type(general, {k: target for k in codec.jt_vars(general)})
@@ -702,6 +710,27 @@ def def_strategy(env, families):
         # ---- variants ----------------------------------------------------------------------------------------
         if fam in ('self-same', 'overload-self'):
             rhs = wrap(rhs, japp(["c", name, declT], *args), R)
+        elif fam == 'overload-self-unifiable':
+            # occurrence at a type that unifies with the declared type although neither is an instance of the other
+            general = ref.to_jtype(sig.consts[name])
+            occT = L.jsubst_type(general, {k: fun(BOOL, A) for k in codec.jt_vars(general)})
+            pts, occR = codec.jt_strip(occT)
+            rhs = wrap(rhs, japp(["c", name, occT], *[L.inhabitant(T) for T in pts]), occR)
+        elif fam in ('overload-self-instance', 'overload-self-general'):
+            # the overloaded constant occurs on the right at a strict instance of the declared type
+            # (resp. the declared type is the strict instance and the occurrence is at the polymorphic type)
+            target = draw(st.sampled_from([BOOL] + ([NAT] if env.has_nat else [])))
+            instT = L.jsubst_type(declT, {('tv', 'a'): target})
+            if fam == 'overload-self-general':
+                polyT, declT = declT, instT
+                args = [['v', a[1], L.jsubst_type(a[2], {('tv', 'a'): target})] for a in args]
+                rhs = L.jsubst_vars(rhs, lambda leaf: L.inhabitant(leaf[2]))
+                R = L.jsubst_type(R, {('tv', 'a'): target})
+                occT = polyT
+            else:
+                occT = instT
+            pts, occR = codec.jt_strip(occT)
+            rhs = wrap(rhs, japp(["c", name, occT], *[L.inhabitant(T) for T in pts]), occR)
         elif fam == 'self-instance':
             if not codec.jt_vars(declT):
                 args.append(['v', fresh_var, A])
